@@ -88,16 +88,103 @@ def cut (sep : Char) : List Char → List Char × List Char
 def isSpace (c : Char) : Bool := c == ' ' || c == '\t' || c == '\n' || c == '\r' || c.toNat == 11 || c.toNat == 12
 def trim (s : List Char) : List Char := ((s.dropWhile isSpace).reverse.dropWhile isSpace).reverse
 
-/-- `strconv.ParseFloat(s, 64)` succeeds with value zero, for plain decimal literals (optional sign, digits
-with at most one point, at least one digit, every digit `0`). Exponent and hexadecimal forms are not
-generated and not modelled. -/
-def zeroLit (s : List Char) : Bool :=
+/-! `strconv.ParseFloat(s, 64)` returns no error and the value zero. Modelled: the grammar of `readFloat` —
+underscores are skipped wherever digits are read and then have to pass `underscoreOK` (only between digits, or
+right after a base prefix); optional sign; decimal mantissa (digits with at most one point, at least one digit) with an optional
+`e`/`E` exponent (optional sign, at least one digit); or `0x`/`0X` + hexadecimal mantissa with a MANDATORY `p`/`P`
+exponent; the whole string consumed — and correct rounding (to nearest, ties to even) of the exact value: the result
+is zero iff the mantissa is zero or the value is at most 2^-1075, half the smallest subnormal. Everything else —
+`inf`, `infinity`, `nan`, malformed text, an overflow (`ErrRange`) — is an error or a non-zero value, i.e. `false`. -/
+
+def digitVal (hex : Bool) (c : Char) : Option Nat :=
+  if '0' ≤ c ∧ c ≤ '9' then some (c.toNat - 48)
+  else if hex && ('a' ≤ c ∧ c ≤ 'f') then some (c.toNat - 87)
+  else if hex && ('A' ≤ c ∧ c ≤ 'F') then some (c.toNat - 55)
+  else none
+
+/-- mantissa: digit values (point removed), number of digits after the point, the unread rest. A second point
+ends the mantissa (and is then left over: malformed). -/
+def scanMant (hex : Bool) : List Char → Bool → List Nat → Nat → List Nat × Nat × List Char
+  | [], _, ds, f => (ds, f, [])
+  | c :: cs, dot, ds, f =>
+    if c == '.' then (if dot then (ds, f, c :: cs) else scanMant hex cs true ds f)
+    else match digitVal hex c with
+      | some d => scanMant hex cs dot (ds ++ [d]) (if dot then f + 1 else f)
+      | none => (ds, f, c :: cs)
+
+def natOfDigits (base : Nat) (ds : List Nat) : Nat := ds.foldl (fun a d => a * base + d) 0
+
+/-- exponent after the `e`/`p`: optional sign, at least one decimal digit, nothing else. -/
+def scanExp (s : List Char) : Option (Bool × Nat) :=
+  let neg := match s with
+    | '-' :: _ => true
+    | _ => false
   let body := match s with
     | '+' :: r => r
     | '-' :: r => r
     | r => r
-  let digits := body.filter (· != '.')
-  decide (body.length - digits.length ≤ 1) && !digits.isEmpty && digits.all (· == '0')
+  if body.isEmpty || !(body.all (fun c => '0' ≤ c && c ≤ '9')) then none
+  else some (neg, natOfDigits 10 (body.map (fun c => c.toNat - 48)))
+
+/-- mantissa `M` (in base 10 or 16), scaled by `B^(±e)·B'^(-frac)`: does the exact value round to zero? -/
+def roundsToZero (hex : Bool) (ds : List Nat) (frac : Nat) (expNeg : Bool) (e : Nat) : Bool :=
+  let m := natOfDigits (if hex then 16 else 10) ds
+  if m == 0 then true
+  else
+    let shift := if hex then 4 * frac else frac
+    if !expNeg && shift ≤ e then false        -- value ≥ 1
+    else
+      let n := if expNeg then e + shift else shift - e   -- value = m / B^n, B = 2 (hex) or 10
+      if hex then
+        if n < 1075 then false
+        else if 4 * ds.length ≤ n - 1075 then true       -- m < 16^len ≤ 2^(n-1075)
+        else decide (m ≤ 2 ^ (n - 1075))
+      else if 324 + ds.length ≤ n then true              -- m < 10^len and 2^1075 < 10^324
+      else decide (m * 2 ^ 1075 ≤ 10 ^ n)
+
+/-- `strconv.underscoreOK`: after an optional sign and an optional base prefix (`0b`, `0o`, `0x`, any case), an
+underscore must follow a digit (or the prefix) and must be followed by a digit. -/
+def underscoreGo (hex : Bool) : List Char → Char → Bool
+  | [], saw => saw != '_'
+  | c :: cs, saw =>
+    if ('0' ≤ c && c ≤ '9') || (hex && (('a' ≤ c && c ≤ 'f') || ('A' ≤ c && c ≤ 'F'))) then underscoreGo hex cs '0'
+    else if c == '_' then (if saw == '0' then underscoreGo hex cs '_' else false)
+    else if saw == '_' then false
+    else underscoreGo hex cs '!'
+
+def underscoreOK (s : List Char) : Bool :=
+  let body := match s with
+    | '+' :: r => r
+    | '-' :: r => r
+    | r => r
+  match body with
+  | '0' :: x :: r =>
+    if x == 'x' || x == 'X' then underscoreGo true r '0'
+    else if x == 'b' || x == 'B' || x == 'o' || x == 'O' then underscoreGo false r '0'
+    else underscoreGo false body '^'
+  | _ => underscoreGo false body '^'
+
+def zeroLitCore (s : List Char) : Bool :=
+  let body := match s with
+    | '+' :: r => r
+    | '-' :: r => r
+    | r => r
+  let hex := match body with
+    | '0' :: x :: _ :: _ => x == 'x' || x == 'X'
+    | _ => false
+  let r := scanMant hex (if hex then body.drop 2 else body) false [] 0
+  if r.1.isEmpty then false
+  else match r.2.2 with
+    | [] => if hex then false else roundsToZero false r.1 r.2.1 false 0
+    | c :: rest =>
+      if (!hex && (c == 'e' || c == 'E')) || (hex && (c == 'p' || c == 'P')) then
+        match scanExp rest with
+        | some (neg, e) => roundsToZero hex r.1 r.2.1 neg e
+        | none => false
+      else false
+
+def zeroLit (s : List Char) : Bool :=
+  if s.any (· == '_') then underscoreOK s && zeroLitCore (s.filter (· != '_')) else zeroLitCore s
 
 /-- the first parameter named `q`/`Q` decides. -/
 def zeroWeightL : List (List Char) → Bool
